@@ -543,16 +543,25 @@ func check(id, tier string) int {
 	}
 	sort.Strings(sigs)
 	var reported []string
+	unconfirmed := 0
 	for _, sig := range sigs {
 		r := a.violations[sig]
 		path, ok := minimiseAndConfirm(bin, id, tier, r, a.violIdx[sig])
 		if !ok {
-			die(2, "violation %s (seed %d) did not reproduce from its replay file: harness defect", sig, r.Seed)
+			// never print an alarm that does not replay; it only becomes a
+			// harness failure (exit 2) if nothing else was confirmed
+			fmt.Fprintf(os.Stderr, "verifctl: violation %s (seed %d) did not reproduce from its replay file: not reported\n", sig, r.Seed)
+			unconfirmed++
+			continue
 		}
 		fmt.Printf("VIOLATION property=%s replay=%s\n", id, path)
 		fmt.Printf("  signature=%s seed=%d detail=%s\n", sig, r.Seed, tail(r.Detail, 600))
 		reported = append(reported, sig)
 		exit = 1
+	}
+	if unconfirmed > 0 && len(reported) == 0 {
+		writeEvidence(id, tier, base, pc, a, time.Since(t0).Seconds(), 0, nil)
+		die(2, "%d violation signature(s) did not reproduce from their replay files and none did: harness defect", unconfirmed)
 	}
 	// known findings that were hit
 	for _, f := range loadFindings() {
